@@ -624,6 +624,8 @@ func verif_modifies_all()                     {}
 func verif_modifies_ghost(name string)        {}
 func verif_alloc_bound(n uint64)              {}
 func verif_uf_u64(name string, x any) uint64  { return 0 }
+func verif_field_int(p any, name string) int  { return 0 }
+func verif_field_len(p any, name string) int  { return 0 }
 func verif_modifies_ghostflag(name string, x any) {}
 func verif_ghost_flag(name string, x any) bool { return false }
 func verif_ghost_int(name string) int         { return 0 }
